@@ -35,7 +35,7 @@ def extract_playback_test(out):
 def playback(pid, rec, scratch):
     u = rec["unit"]
     r = core.run_kani(scratch, u.name, group=u.group, timeout=u.timeout, mem_gb=u.mem_gb, unwind_rules=u.rules,
-                      playback=True)
+                      playback=True, extra_args=core.lean_args(u))
     test = extract_playback_test(r.log)
     if not test:
         return dict(reproduced=False, detail="no concrete playback test produced", mode="playback")
